@@ -139,6 +139,21 @@ pub fn perturb(l: &Layout, fi: usize) -> Vec<(String, Layout)> {
         }
         push("huge-range-end-wraps", nf, None);
     }
+    // a range that runs over the top of the base, with a second range nested inside it (so the range with the
+    // highest start is not the one reaching highest); the type width is the sum of both lengths
+    if matches!(f.ty, FieldTy::UArb { .. } | FieldTy::UNat { .. }) && l.base_bits >= 6 && f.array.is_none() {
+        let lo = l.base_bits - 4;
+        let a = Rng::new(lo, l.base_bits + 1); // 6 bits, two of them above the base
+        let b = Rng::new(lo + 1, lo + 2); // nested, 2 bits
+        for order in 0..2 {
+            let mut nf = f.clone();
+            nf.kw_bit = false;
+            nf.list = true;
+            nf.ranges = if order == 0 { vec![a.clone(), b.clone()] } else { vec![b.clone(), a.clone()] };
+            nf.ty = uty(8);
+            push("nested-range-inside-overhanging-range", nf, None);
+        }
+    }
     // R2: range one bit wider / narrower with the same type
     {
         let last = f.ranges.len() - 1;
